@@ -8,6 +8,8 @@ import BindgenModel.Driver.C16
 import BindgenModel.Driver.C17
 import BindgenModel.Driver.C14
 import BindgenModel.Driver.C13
+import BindgenModel.Driver.C15
+import BindgenModel.Driver.C18
 /-! `bgmodel`: one request per input line, one answer per output line (lines between `ir-begin`
 and `ir-end` load an IR dump and produce no output). -/
 open BindgenModel
@@ -34,6 +36,8 @@ def dispatch (st : St) (line : String) : St × Option String :=
   | "c17" :: rest => (st, some (Driver.C17.handle rest))
   | "feat" :: rest => (st, some (Driver.C14.handle rest))
   | "opts" :: rest => (st, some (Driver.C13.handle rest))
+  | "fmt" :: rest => (st, some (Driver.C15.handle rest))
+  | "pp" :: rest => (st, some (Driver.C18.handle rest))
   | _ => (st, some "bad-op")
 
 partial def loop (h : IO.FS.Stream) (out : IO.FS.Stream) (st : St) : IO Unit := do
